@@ -24,7 +24,7 @@
 //                 | route (listener management / direct dispatch heavy)
 // options (--opt): cfg=N (force configuration N), nopif=1 (never call processIf),
 //                  nomulti=1 (only predicates callable with exactly one prototype),
-//                  norvkey=1 (never pass the event key as a temporary)
+//                  live=1 (print every op-log line to stderr at once: witness of a case that ends in a sanitizer abort)
 #include "vcommon.h"
 #include "vledger.h"
 #include "vaccess.h"
@@ -266,7 +266,7 @@ struct Mode
 	int wEnq, wProc1, wProc, wPif, wClear, wEmptyQ, wLis, wFire, wEnum; // weights (queue configurations)
 	int pNested;   // % of callbacks / predicate calls that enqueue from inside
 	int pDecline;  // % of processIf calls whose predicate declines everything
-	bool noPif, noMulti, noRvKey;
+	bool noPif, noMulti, live;
 };
 static Mode modeOf(const std::string & m)
 {
@@ -278,34 +278,32 @@ static Mode modeOf(const std::string & m)
 	else if(m == "route") { r.wLis = 30; r.wFire = 16; r.wEnum = 8; r.wEnq = 26; r.wPif = 8; r.wProc1 = 4; r.wProc = 3; }
 	r.noPif = ctx().optInt("nopif", 0) != 0;
 	r.noMulti = ctx().optInt("nomulti", 0) != 0;
-	r.noRvKey = ctx().optInt("norvkey", 0) != 0;
+	r.live = ctx().optInt("live", 0) != 0;
 	return r;
 }
 
-// ------------------------------------------------------------------ the world (real object + model + monitor)
+// ------------------------------------------------------------------ the world: model + monitor (not a template: compiled once)
+struct GH { int index; std::weak_ptr<void> wp; GH() : index(0) {} GH(int i, const std::weak_ptr<void> & w) : index(i), wp(w) {} };
 struct MLis { int ki, idx, ft; bool live; unsigned mask; };
 struct MEv { int id, kind, idx, ki, state, slot; Fp fp; }; // state: 0 queued, 1 dispatched, 2 cleared, 3 direct
 struct Exp { int lid, ev; };
+struct AddPlan { int ki, ft, lid, idx, how, before; unsigned mask; GH hb; std::string what; };
 
-template <typename C>
-struct World : HSink
+static int firstOf(unsigned m) { for(int i = 0; i < 32; ++i) if((m >> i) & 1u) return i; return -1; }
+static int bitsOf(unsigned m) { int n = 0; for(int i = 0; i < 32; ++i) if((m >> i) & 1u) ++n; return n; }
+
+struct WorldBase : HSink
 {
-	typedef typename C::Obj Obj;
-	typedef typename C::Handle Handle;
-	typedef typename C::Key Key;
-	typedef typename C::F F;
-	typedef typename C::P P;
-	typedef Fold<typename C::PL> FoldT;
-	enum { NP = FoldT::N, NK = C::hasKey ? 3 : 1 };
-
-	Obj obj;
+	enum { NP = 7 };
+	const int cont;
+	const bool include, hasQueue, hasKey;
+	const int NK;
 	Mode mode;
 	Rng & rng;
-	Key keys[3];
 	long long keyFps[3];
 
 	std::vector<MLis> lis;
-	std::vector<Handle> rh;
+	std::vector<GH> rh;
 	std::vector<int> lists[3][NP];
 	std::vector<int> removed;
 
@@ -319,7 +317,7 @@ struct World : HSink
 	bool pifActive;
 	unsigned pifMask;
 	int pifCursor[NP];
-	int pifApproved, pifExamined, pifPolicy;
+	int pifApproved, pifExamined, pifPolicy, pifOwn;
 	std::vector<int> pifSlots;
 
 	// slot model (evidence only)
@@ -331,50 +329,53 @@ struct World : HSink
 	bool enumActive;
 	std::vector<int> enumExpect;
 	size_t enumPos;
-	int enumIdx, enumStopAfter, enumVisited;
-	bool enumStopped;
+	int enumIdx, enumStopAfter, enumVisited, enumKi;
+	bool enumStopped, enumWithIf;
 	int enumHandleLid;
-	Handle enumHandle;
+	GH enumHandle;
 
 	int nestedBudget;
 	Fnv trace;
 	bool dead;
 
 	// non-triviality
-	unsigned kindsEnqueued, protoBound;
+	unsigned protoEnqueued, protoBound;
 	bool sawPifMixed, sawSlotChange, sawListenerCall, sawRemove, sawMultiBind, sawInvokeHit;
 
-	World(const Mode & m, Rng & r) : mode(m), rng(r), curOp("idle"), lastEv(-1), pifActive(false), pifMask(0), pifApproved(0), pifExamined(0), pifPolicy(0),
-		slotModelOk(true), enumActive(false), enumPos(0), enumIdx(-1), enumStopAfter(0), enumVisited(0), enumStopped(false), enumHandleLid(-1), enumHandle(),
-		nestedBudget(0), dead(false), kindsEnqueued(0), protoBound(0), sawPifMixed(false), sawSlotChange(false), sawListenerCall(false), sawRemove(false),
+	// ---- the library side (World<C>)
+	virtual void vAdd(int ki, int ft) = 0;
+	virtual bool vRemove(int ki, const GH & h) = 0;
+	virtual bool vEmpty(int ki, bool & asBool) = 0;
+	virtual void vEnum(int ki, int proto) = 0;
+	virtual void vGen(bool enq, int ki, bool inside) = 0;
+	virtual bool vProcess(bool one) = 0;
+	virtual void vProcessIf(int pt) = 0;
+	virtual void vClear() = 0;
+	virtual bool vEmptyQueue() = 0;
+	virtual size_t vQueueSize() = 0;
+	virtual size_t vFreeSize() = 0;
+	virtual std::string vCheckSlots() = 0;
+
+	WorldBase(int cont_, bool include_, const Mode & m, Rng & r) : cont(cont_), include(include_), hasQueue(cont_ == CK_EQ), hasKey(cont_ != CK_CL), NK(cont_ != CK_CL ? 3 : 1),
+		mode(m), rng(r), curOp("idle"), lastEv(-1), pifActive(false), pifMask(0), pifApproved(0), pifExamined(0), pifPolicy(0), pifOwn(0),
+		slotModelOk(true), enumActive(false), enumPos(0), enumIdx(-1), enumStopAfter(0), enumVisited(0), enumKi(0), enumStopped(false), enumWithIf(false), enumHandleLid(-1),
+		nestedBudget(0), dead(false), protoEnqueued(0), protoBound(0), sawPifMixed(false), sawSlotChange(false), sawListenerCall(false), sawRemove(false),
 		sawMultiBind(false), sawInvokeHit(false)
 	{
-		for(int i = 0; i < 3; ++i) { keys[i] = KeyGen<Key>::make(i); keyFps[i] = C::include ? keyFp(keys[i]) : -1; }
+		for(int i = 0; i < 3; ++i) keyFps[i] = -1;
 		for(int i = 0; i < (int)NP; ++i) pifCursor[i] = -1;
 	}
 
-	void log(const std::string & s) { oplog(s); trace.add(s); }
+	void log(const std::string & s) { oplog(s); trace.add(s); if(mode.live) fprintf(stderr, "  | %s\n", s.c_str()); }
 	void fail(const std::string & key, const std::string & desc) {
 		violation(key, desc);
 		oplog("!! " + key + " :: " + desc);
 		dead = true;
 	}
-	std::string kstr(int ki) const { return C::hasKey ? "K" + num(ki) : std::string("-"); }
+	std::string kstr(int ki) const { return hasKey ? "K" + num(ki) : std::string("-"); }
+	static std::string hex(unsigned m) { char b[16]; snprintf(b, sizeof b, "0x%x", m); return b; }
 
 	// ---------------------------------------------------------------- listeners
-	template <typename Fn, typename Sig> static void tryTarget(const std::function<Sig> & f, int & out) {
-		const Fn * t = f.template target<Fn>();
-		if(t) out = t->lid;
-	}
-	template <typename Sig> static int lidOf(const std::function<Sig> & f) {
-		int r = -1;
-		tryTarget<typename F::FV>(f, r); tryTarget<typename F::FI>(f, r); tryTarget<typename F::FSS>(f, r); tryTarget<typename F::FSSv>(f, r);
-		tryTarget<typename F::FVEC>(f, r); tryTarget<typename F::FVECv>(f, r); tryTarget<typename F::FBIG>(f, r); tryTarget<typename F::FPI>(f, r);
-		tryTarget<typename F::FPIr>(f, r); tryTarget<typename F::FBOX>(f, r); tryTarget<typename F::FL>(f, r); tryTarget<typename F::FOvVI>(f, r);
-		tryTarget<typename F::FOvSSVEC>(f, r); tryTarget<typename F::FOvBoxBig>(f, r); tryTarget<typename F::FGen>(f, r);
-		return r;
-	}
-
 	int liveCount(int ki) const { int n = 0; for(int i = 0; i < (int)NP; ++i) n += (int)lists[ki][i].size(); return n; }
 	int pickLive(int ki) {
 		const int n = liveCount(ki);
@@ -394,71 +395,41 @@ struct World : HSink
 		}
 		return -1;
 	}
-	Handle handleOf(int lid) const { return lid < 0 ? Handle() : rh[(size_t)lid]; }
+	GH handleOf(int lid) const { return lid < 0 ? GH() : rh[(size_t)lid]; }
 	std::string hstate(int lid, int idx) const {
 		if(lid < 0) return "none";
 		const MLis & l = lis[(size_t)lid];
 		return std::string(l.live ? "live" : "removed") + (idx < 0 ? "" : (l.idx == idx ? "-same-prototype" : "-other-prototype"));
 	}
 
-	template <typename Fn>
-	void doAdd(int ki, int ft)
-	{
-		constexpr unsigned mask = FoldT::template maskByCallable<Fn>();
-		constexpr int idx = FoldT::firstOf(mask);
-		if constexpr (idx >= 0) {
-			const int lid = (int)lis.size();
-			Fn fn; fn.lid = lid;
-			const int how = (int)rng.below(3);
-			int before = -1;
-			if(how == 2) before = pickHandle(ki);
-			std::string what = std::string(how == 0 ? "append " : how == 1 ? "prepend " : "insert ") + kstr(ki) + " " + kFName[ft] + " accepts=0x" + num(mask)
-				+ " -> P" + num(idx);
-			if(how == 2) what += " before l" + num(before) + "(" + hstate(before, idx) + ")";
-			log(what + " = l" + num(lid));
-			const Handle hb = handleOf(before);
-			Handle h = Handle();
-			if constexpr (C::cont == CK_CL) {
-				if(how == 0) h = obj.append(fn); else if(how == 1) h = obj.prepend(fn); else h = obj.insert(fn, hb);
-			}
-			else {
-				if(how == 0) h = obj.appendListener(keys[ki], fn); else if(how == 1) h = obj.prependListener(keys[ki], fn); else h = obj.insertListener(keys[ki], fn, hb);
-			}
-			MLis l; l.ki = ki; l.idx = idx; l.ft = ft; l.live = true; l.mask = mask;
-			lis.push_back(l); rh.push_back(h);
-			std::vector<int> & o = lists[ki][idx];
-			if(how == 0) o.push_back(lid);
-			else if(how == 1) o.insert(o.begin(), lid);
-			else {
-				if(before >= 0 && lis[(size_t)before].live && lis[(size_t)before].idx == idx) o.insert(std::find(o.begin(), o.end(), before), lid);
-				else o.push_back(lid);
-			}
-			count(how == 0 ? "op.append" : how == 1 ? "op.prepend" : "op.insert");
-			if(how == 2) count(("insert.before=" + hstate(before, idx)).c_str());
-			if(FoldT::bits(mask) > 1) { count("bind.callable_accepted_by_several_prototypes"); sawMultiBind = true; }
-			protoBound |= 1u << idx;
-			if(h.index != idx) fail("add:handle-index:" + std::string(kFName[ft]), what + ": returned handle names prototype " + num(h.index) + ", rule says " + num(idx));
-			else if(h.homoHandle.expired()) fail("add:returned-dead-handle", what + " returned an expired handle");
-		}
+	// hows: bit set of the operations compiled for this functor type (1 append, 2 prepend, 4 insert)
+	AddPlan beginAdd(int ki, int ft, unsigned mask, unsigned hows) {
+		AddPlan p;
+		p.ki = ki; p.ft = ft; p.mask = mask; p.idx = firstOf(mask); p.lid = (int)lis.size(); p.before = -1;
+		do { p.how = (int)rng.below(3); } while(! ((hows >> p.how) & 1u));
+		if(p.how == 2) p.before = pickHandle(ki);
+		p.what = std::string(p.how == 0 ? "append " : p.how == 1 ? "prepend " : "insert ") + kstr(ki) + " " + kFName[ft] + " accepts=" + hex(mask) + " -> P" + num(p.idx);
+		if(p.how == 2) p.what += " before l" + num(p.before) + "(" + hstate(p.before, p.idx) + ")";
+		log(p.what + " = l" + num(p.lid));
+		p.hb = handleOf(p.before);
+		return p;
 	}
-	void addListener(int ki, int ft) {
-		switch(ft) {
-		case 0: doAdd<typename F::FV>(ki, ft); break;
-		case 1: doAdd<typename F::FI>(ki, ft); break;
-		case 2: doAdd<typename F::FSS>(ki, ft); break;
-		case 3: doAdd<typename F::FSSv>(ki, ft); break;
-		case 4: doAdd<typename F::FVEC>(ki, ft); break;
-		case 5: doAdd<typename F::FVECv>(ki, ft); break;
-		case 6: doAdd<typename F::FBIG>(ki, ft); break;
-		case 7: doAdd<typename F::FPI>(ki, ft); break;
-		case 8: doAdd<typename F::FPIr>(ki, ft); break;
-		case 9: doAdd<typename F::FBOX>(ki, ft); break;
-		case 10: doAdd<typename F::FL>(ki, ft); break;
-		case 11: doAdd<typename F::FOvVI>(ki, ft); break;
-		case 12: doAdd<typename F::FOvSSVEC>(ki, ft); break;
-		case 13: doAdd<typename F::FOvBoxBig>(ki, ft); break;
-		default: doAdd<typename F::FGen>(ki, ft); break;
+	void endAdd(const AddPlan & p, const GH & h) {
+		MLis l; l.ki = p.ki; l.idx = p.idx; l.ft = p.ft; l.live = true; l.mask = p.mask;
+		lis.push_back(l); rh.push_back(h);
+		std::vector<int> & o = lists[p.ki][p.idx];
+		if(p.how == 0) o.push_back(p.lid);
+		else if(p.how == 1) o.insert(o.begin(), p.lid);
+		else {
+			if(p.before >= 0 && lis[(size_t)p.before].live && lis[(size_t)p.before].idx == p.idx) o.insert(std::find(o.begin(), o.end(), p.before), p.lid);
+			else o.push_back(p.lid);
 		}
+		count(p.how == 0 ? "op.append" : p.how == 1 ? "op.prepend" : "op.insert");
+		if(p.how == 2) count(("insert.before=" + hstate(p.before, p.idx)).c_str());
+		if(bitsOf(p.mask) > 1) { count("bind.callable_accepted_by_several_prototypes"); sawMultiBind = true; }
+		protoBound |= 1u << p.idx;
+		if(h.index != p.idx) fail("add:handle-index:" + std::string(kFName[p.ft]), p.what + ": returned handle names prototype " + num(h.index) + ", rule says " + num(p.idx));
+		else if(h.wp.expired()) fail("add:returned-dead-handle", p.what + " returned an expired handle");
 	}
 
 	void mRemove(int lid) {
@@ -468,43 +439,30 @@ struct World : HSink
 		l.live = false;
 		removed.push_back(lid);
 	}
-	void doRemoveWith(int ki, int lid, const Handle & h, const char * via) {
+	void doRemoveWith(int ki, int lid, const GH & h, const char * via) {
 		const bool expect = lid >= 0 && lis[(size_t)lid].live;
 		const std::string st = hstate(lid, -1);
 		log(std::string("remove ") + kstr(ki) + " l" + num(lid) + "(" + st + ")" + via);
-		bool got;
-		if constexpr (C::cont == CK_CL) got = obj.remove(h); else got = obj.removeListener(keys[ki], h);
+		const bool got = vRemove(ki, h);
 		if(expect) { mRemove(lid); sawRemove = true; }
 		log("  -> " + num(got));
 		count("op.remove");
 		if(got != expect) fail("remove:result:handle=" + st, "remove returned " + num(got) + ", model says " + num(expect));
 	}
-	void doRemove(int ki) {
-		const int lid = pickHandle(ki);
-		doRemoveWith(ki, lid, handleOf(lid), "");
-	}
+	void doRemove(int ki) { const int lid = pickHandle(ki); doRemoveWith(ki, lid, handleOf(lid), ""); }
 
 	void doEmpty(int ki) {
 		const bool expect = liveCount(ki) == 0;
-		bool got;
-		if constexpr (C::cont == CK_CL) {
-			got = obj.empty();
-			const bool b = (bool)obj;
-			if(b == got) fail("empty:operator-bool-disagrees", "empty() and operator bool disagree");
-		}
-		else got = ! obj.hasAnyListener(keys[ki]);
+		bool asBool = false;
+		const bool got = vEmpty(ki, asBool);
 		log("empty " + kstr(ki) + " -> " + num(got));
 		count("op.empty");
-		if(! dead && got != expect) fail("empty:result", "empty/hasAnyListener says empty=" + num(got) + ", model says " + num(expect));
+		if(asBool == got) fail("empty:operator-bool-disagrees", "empty() and operator bool disagree");
+		else if(got != expect) fail("empty:result", "empty/hasAnyListener says empty=" + num(got) + ", model says " + num(expect));
 	}
 
 	// ---------------------------------------------------------------- enumeration
-	struct Vis1 { World * w; template <typename CB> void operator() (const CB & cb) const { w->onVisit(World::lidOf(cb), nullptr); } };
-	struct Vis2 { World * w; template <typename CB> void operator() (const Handle & h, const CB & cb) const { w->onVisit(World::lidOf(cb), &h); } };
-	struct VisIf1 { World * w; template <typename CB> bool operator() (const CB & cb) const { return w->onVisit(World::lidOf(cb), nullptr); } };
-	struct VisIf2 { World * w; template <typename CB> bool operator() (const Handle & h, const CB & cb) const { return w->onVisit(World::lidOf(cb), &h); } };
-
-	bool onVisit(int lid, const Handle * h) {
+	bool onVisit(int lid, bool hasHandle, const GH & h) {
 		if(dead) return true;
 		if(! enumActive) { fail("forEach:function-called-outside-enumeration", "enumeration function called while no enumeration is in progress"); return true; }
 		if(enumStopped) { fail("forEachIf:continued-after-stop", "l" + num(lid) + " visited after the function returned false"); return true; }
@@ -521,57 +479,33 @@ struct World : HSink
 			return true;
 		}
 		++enumPos;
-		if(h) {
-			if(h->index != enumIdx) { fail("forEach:handle-index", "enumeration passed a handle naming prototype " + num(h->index) + " for a callback of prototype " + num(enumIdx)); return true; }
-			if(enumHandleLid < 0 || rng.chance(1, 3)) { enumHandleLid = lid; enumHandle = *h; }
+		if(hasHandle) {
+			if(h.index != enumIdx) { fail("forEach:handle-index", "enumeration passed a handle naming prototype " + num(h.index) + " for a callback of prototype " + num(enumIdx)); return true; }
+			if(enumHandleLid < 0 || rng.chance(1, 3)) { enumHandleLid = lid; enumHandle = h; }
 		}
 		++enumVisited;
 		if(enumStopAfter > 0 && enumVisited == enumStopAfter) { enumStopped = true; log("  (function returns false)"); return false; }
 		return true;
 	}
-
-	template <typename Proto>
-	void doEnumProto(int ki, const char * pname)
-	{
-		constexpr unsigned mask = FoldT::template maskByCallable<Proto &>();
-		// only prototypes that select exactly one listed prototype: which list an ambiguous one enumerates is not part of the statement
-		if constexpr (FoldT::bits(mask) == 1) {
-			constexpr int idx = FoldT::firstOf(mask);
-			const bool withIf = rng.chance(1, 2), two = rng.chance(1, 2);
-			enumActive = true; enumExpect = lists[ki][idx]; enumPos = 0; enumIdx = idx; enumVisited = 0; enumStopped = false; enumHandleLid = -1;
-			enumStopAfter = (withIf && rng.chance(1, 2)) ? (int)rng.below((uint32_t)enumExpect.size() + 2) : 0;
-			log(std::string(withIf ? "forEachIf<" : "forEach<") + pname + "> " + kstr(ki) + " -> P" + num(idx) + (two ? " (handle,callback)" : " (callback)")
-				+ (withIf ? " stopAfter=" + num(enumStopAfter) : std::string()));
-			bool r = true;
-			if constexpr (C::cont == CK_CL) {
-				if(withIf) { if(two) { VisIf2 v; v.w = this; r = obj.template forEachIf<Proto>(v); } else { VisIf1 v; v.w = this; r = obj.template forEachIf<Proto>(v); } }
-				else { if(two) { Vis2 v; v.w = this; obj.template forEach<Proto>(v); } else { Vis1 v; v.w = this; obj.template forEach<Proto>(v); } }
-			}
-			else {
-				if(withIf) { if(two) { VisIf2 v; v.w = this; r = obj.template forEachIf<Proto>(keys[ki], v); } else { VisIf1 v; v.w = this; r = obj.template forEachIf<Proto>(keys[ki], v); } }
-				else { if(two) { Vis2 v; v.w = this; obj.template forEach<Proto>(keys[ki], v); } else { Vis1 v; v.w = this; obj.template forEach<Proto>(keys[ki], v); } }
-			}
-			enumActive = false;
-			count(withIf ? "op.forEachIf" : "op.forEach");
-			log("  -> " + num(r));
-			if(dead) return;
-			if(! enumStopped && enumPos != enumExpect.size()) { fail("forEach:missed-callback", "enumeration of prototype " + num(idx) + " ended after " + num((long long)enumPos) + " of " + num((long long)enumExpect.size()) + " callbacks"); return; }
-			if(withIf && r != ! enumStopped) { fail("forEachIf:result", "forEachIf returned " + num(r) + " but the function " + (enumStopped ? "stopped it" : "never returned false")); return; }
-			// a handle obtained from the enumeration must denote the visited callback
-			if(enumHandleLid >= 0 && rng.chance(1, 3)) doRemoveWith(ki, enumHandleLid, enumHandle, " (handle from forEach)");
-			enumHandle = Handle();
-		}
+	// returns whether forEachIf is used; forEach passes (handle, callback) iff odd, forEachIf iff ! odd
+	bool beginEnum(int ki, int idx, const char * pname, bool odd) {
+		const bool withIf = rng.chance(1, 2), two = withIf ? ! odd : odd;
+		enumActive = true; enumExpect = lists[ki][idx]; enumPos = 0; enumIdx = idx; enumVisited = 0; enumStopped = false; enumHandleLid = -1; enumKi = ki; enumWithIf = withIf;
+		enumStopAfter = (withIf && rng.chance(1, 2)) ? (int)rng.below((uint32_t)enumExpect.size() + 2) : 0;
+		log(std::string(withIf ? "forEachIf<" : "forEach<") + pname + "> " + kstr(ki) + " -> P" + num(idx) + (two ? " (handle,callback)" : " (callback)")
+			+ (withIf ? " stopAfter=" + num(enumStopAfter) : std::string()));
+		return withIf;
 	}
-	void doEnum(int ki) {
-		switch(rng.below(7)) {
-		case 0: doEnumProto<typename P::V>(ki, "V"); break;
-		case 1: doEnumProto<typename P::I>(ki, "I"); break;
-		case 2: doEnumProto<typename P::SS>(ki, "SS"); break;
-		case 3: doEnumProto<typename P::VEC>(ki, "VEC"); break;
-		case 4: doEnumProto<typename P::BIG>(ki, "BIG"); break;
-		case 5: doEnumProto<typename P::PI>(ki, "PI"); break;
-		default: doEnumProto<typename P::BOX>(ki, "BOX"); break;
-		}
+	void endEnum(bool r) {
+		enumActive = false;
+		count(enumWithIf ? "op.forEachIf" : "op.forEach");
+		log("  -> " + num(r));
+		if(dead) return;
+		if(! enumStopped && enumPos != enumExpect.size()) { fail("forEach:missed-callback", "enumeration of prototype " + num(enumIdx) + " ended after " + num((long long)enumPos) + " of " + num((long long)enumExpect.size()) + " callbacks"); return; }
+		if(enumWithIf && r != ! enumStopped) { fail("forEachIf:result", "forEachIf returned " + num(r) + " but the function " + (enumStopped ? "stopped it" : "never returned false")); return; }
+		// a handle obtained from the enumeration must denote the visited callback
+		if(enumHandleLid >= 0 && rng.chance(1, 3)) doRemoveWith(enumKi, enumHandleLid, enumHandle, " (handle from forEach)");
+		enumHandle = GH();
 	}
 
 	// ---------------------------------------------------------------- events
@@ -614,7 +548,7 @@ struct World : HSink
 		log("  call l" + num(lid) + " e" + num(e.id) + " " + fp.str());
 		sawListenerCall = true;
 		if(! fp.sameArgs(e.fp)) { fail(std::string(curOp) + ":arguments:" + kKindName[e.kind], "l" + num(lid) + " received " + fp.str() + " for event e" + num(e.id) + ", model says " + e.fp.str()); return; }
-		if(C::include && fp.key != e.fp.key) { fail(std::string(curOp) + ":event-argument", "l" + num(lid) + " received event key " + num(fp.key) + " for e" + num(e.id) + ", model says " + num(e.fp.key)); return; }
+		if(include && fp.key != e.fp.key) { fail(std::string(curOp) + ":event-argument", "l" + num(lid) + " received event key " + num(fp.key) + " for e" + num(e.id) + ", model says " + num(e.fp.key)); return; }
 		nested();
 	}
 
@@ -629,12 +563,12 @@ struct World : HSink
 			for(size_t i = 0; i < pending.size(); ++i) {
 				const MEv & e = events[(size_t)pending[i]];
 				if(e.fp.shape != 0 || ! ((pifMask >> e.idx) & 1u)) continue;
-				if(C::include && e.fp.key != fp.key) continue;
+				if(include && e.fp.key != fp.key) continue;
 				if(pending[i] <= pifCursor[e.idx]) continue;
 				found = pending[i]; pos = i; break;
 			}
 			if(found < 0) {
-				fail("processIf:predicate-invoked-without-matching-queued-event:V", "predicate called with " + fp.str() + " but no unexamined queued event of a prototype it is callable with has no arguments");
+				fail("processIf:predicate-invoked-without-matching-queued-event:no-arguments", "predicate called with " + fp.str() + " but there is no unexamined queued event without arguments of a prototype it is callable with");
 				return false;
 			}
 		}
@@ -651,10 +585,10 @@ struct World : HSink
 			}
 			const MEv & e = events[(size_t)found];
 			if(! ((pifMask >> e.idx) & 1u)) {
-				fail("processIf:examined-event-of-foreign-prototype", "predicate (callable with prototypes 0x" + num(pifMask) + ") was passed event e" + num(e.id) + " of prototype " + num(e.idx));
+				fail("processIf:examined-event-of-foreign-prototype", "predicate (callable with prototypes " + hex(pifMask) + ") was passed event e" + num(e.id) + " of prototype " + num(e.idx));
 				return false;
 			}
-			if(C::include && e.fp.key != fp.key) { fail("processIf:event-argument", "predicate received event key " + num(fp.key) + " for e" + num(e.id) + ", model says " + num(e.fp.key)); return false; }
+			if(include && e.fp.key != fp.key) { fail("processIf:event-argument", "predicate received event key " + num(fp.key) + " for e" + num(e.id) + ", model says " + num(e.fp.key)); return false; }
 			if(found <= pifCursor[e.idx]) { fail("processIf:examined-out-of-queue-order-or-twice", "predicate was passed e" + num(e.id) + " after a later event of the same prototype"); return false; }
 		}
 		MEv & e = events[(size_t)found];
@@ -681,203 +615,132 @@ struct World : HSink
 	}
 
 	void nested() {
-		if constexpr (C::hasQueue) {
-			if(dead || nestedBudget <= 0 || ! rng.chance((uint32_t)mode.pNested, 100)) return;
-			--nestedBudget;
-			count("nested_enqueues");
-			genEvent<true>((int)rng.below(NK), true);
-		}
+		if(! hasQueue || dead || nestedBudget <= 0 || ! rng.chance((uint32_t)mode.pNested, 100)) return;
+		--nestedBudget;
+		count("nested_enqueues");
+		vGen(true, (int)rng.below((uint32_t)NK), true);
 	}
 
-	// the library call itself
-	template <bool Enq, typename K, typename ...A>
-	void emitK(int ki, int kind, int id, bool inside, K && key, A && ...a)
-	{
-		constexpr unsigned mask = C::include ? FoldT::template maskByArgs<K, A...>() : FoldT::template maskByArgs<A...>();
-		constexpr int idx = FoldT::firstOf(mask);
-		static_assert(idx >= 0, "no prototype accepts these arguments");
-		MEv e; e.id = id; e.kind = kind; e.idx = idx; e.ki = ki; e.state = Enq ? 0 : 3; e.slot = -1; e.fp = fpForEvent(kind, id);
-		if(C::include) e.fp.key = keyFps[ki];
+	// model side of one enqueue / direct dispatch; the library call follows
+	int beginEvent(bool enq, int ki, int kind, int id, bool inside, unsigned mask, bool keyTemp) {
+		MEv e; e.id = id; e.kind = kind; e.idx = firstOf(mask); e.ki = ki; e.state = enq ? 0 : 3; e.slot = -1; e.fp = fpForEvent(kind, id);
+		if(include) e.fp.key = keyFps[ki];
 		const int ev = (int)events.size();
-		if(FoldT::bits(mask) > 1) count("route.arguments_accepted_by_several_prototypes");
-		const std::string what = std::string(inside ? "  " : "") + (Enq ? "enqueue " : (C::cont == CK_CL ? "invoke " : "dispatch ")) + kstr(ki) + " e" + num(id) + " " + kKindName[kind]
-			+ " accepts=0x" + num(mask) + " -> P" + num(idx) + (std::is_lvalue_reference<K>::value ? "" : " key=temporary");
-		if constexpr (Enq) {
-			if constexpr (C::hasQueue) {
-				// slot model: evidence of slot recycling with a different stored type
-				if(! freeSlots.empty()) {
-					e.slot = freeSlots.front(); freeSlots.pop_front();
-					const int was = slotKind[(size_t)e.slot];
-					count("slot.reuses");
-					if(was != kind) {
-						count("slot.reuses_with_other_kind");
-						if(events.size() > 0) sawSlotChange = true;
-						if(was == KSS && (kind == KI || kind == KBOX)) count("slot.string_pair_then_int");
-						if((was == KI || was == KBOX) && kind == KSS) count("slot.int_then_string_pair");
-						if((was == KBIG) != (kind == KBIG)) count("slot.big_payload_vs_other");
-					}
+		if(bitsOf(mask) > 1) count("route.arguments_accepted_by_several_prototypes");
+		const std::string what = std::string(inside ? "  " : "") + (enq ? "enqueue " : (cont == CK_CL ? "invoke " : "dispatch ")) + kstr(ki) + " e" + num(id) + " " + kKindName[kind]
+			+ " accepts=" + hex(mask) + " -> P" + num(e.idx) + (keyTemp ? " key=temporary" : "");
+		if(enq) {
+			// slot model: evidence of slot recycling with a different stored type
+			if(! freeSlots.empty()) {
+				e.slot = freeSlots.front(); freeSlots.pop_front();
+				const int was = slotKind[(size_t)e.slot];
+				count("slot.reuses");
+				if(was != kind) {
+					count("slot.reuses_with_other_kind");
+					sawSlotChange = true;
+					if(was == KSS && (kind == KI || kind == KBOX)) count("slot.string_pair_then_int");
+					if((was == KI || was == KBOX) && kind == KSS) count("slot.int_then_string_pair");
+					if((was == KBIG) != (kind == KBIG)) count("slot.big_payload_vs_other");
 				}
-				else { e.slot = (int)slotKind.size(); slotKind.push_back(kind); }
 				slotKind[(size_t)e.slot] = kind;
-				events.push_back(e);
-				pending.push_back(ev);
-				kindsEnqueued |= 1u << idx;
-				count((std::string("events.enqueued.") + kKindName[kind]).c_str());
-				if(! std::is_lvalue_reference<K>::value) count("events.enqueued_with_temporary_key");
-				log(what);
-				obj.enqueue(std::forward<K>(key), std::forward<A>(a)...);
 			}
+			else { e.slot = (int)slotKind.size(); slotKind.push_back(kind); }
+			events.push_back(e);
+			pending.push_back(ev);
+			protoEnqueued |= 1u << e.idx;
+			count((std::string("events.enqueued.") + kKindName[kind]).c_str());
+			if(keyTemp) count("events.enqueued_with_temporary_key");
+			log(what);
 		}
 		else {
 			events.push_back(e);
 			log(what);
-			curOp = C::cont == CK_CL ? "invoke" : "dispatch";
+			curOp = cont == CK_CL ? "invoke" : "dispatch";
 			lastEv = ev;
 			pushExpect(ev);
-			const bool any = ! expectQ.empty();
+			if(! expectQ.empty()) sawInvokeHit = true;
 			count((std::string("events.direct.") + kKindName[kind]).c_str());
-			if constexpr (C::cont == CK_CL) obj(std::forward<A>(a)...);
-			else obj.dispatch(std::forward<K>(key), std::forward<A>(a)...);
-			if(! dead && ! expectQ.empty()) fail(std::string(curOp) + ":missed-listener-call", "returned without calling l" + num(expectQ.front().lid) + " for e" + num(id));
-			expectQ.clear();
-			if(any && ! dead) sawInvokeHit = true;
-			curOp = "idle";
 		}
+		return ev;
 	}
-
-	template <bool Enq, typename ...A>
-	void emit(int ki, int kind, int id, bool inside, A && ...a)
-	{
-		if(C::hasKey && ! mode.noRvKey && rng.chance(1, 2)) emitK<Enq>(ki, kind, id, inside, Key(keys[ki]), std::forward<A>(a)...);
-		else { const Key & k = keys[ki]; emitK<Enq>(ki, kind, id, inside, k, std::forward<A>(a)...); }
+	void endDirect(int ev) {
+		if(! dead && ! expectQ.empty()) fail(std::string(curOp) + ":missed-listener-call", "returned without calling l" + num(expectQ.front().lid) + " for e" + num(events[(size_t)ev].id));
+		expectQ.clear();
+		curOp = "idle";
 	}
-
 	void lvalueCheck(bool ok, const char * what) {
 		if(! ok && ! dead) fail(std::string("arguments:caller-lvalue-modified:") + what, std::string("an lvalue argument (") + what + ") was modified by the call");
-	}
-
-	// one generated event: Enq ? enqueue : direct invoke / dispatch, with one of 16 argument shapes
-	template <bool Enq>
-	void genEvent(int ki, bool inside)
-	{
-		if(events.size() >= 30000) return;
-		const int id = (int)events.size();
-		switch(rng.below(16)) {
-		case 0: emit<Enq>(ki, KV, id, inside); break;
-		case 1: { int v = id; emit<Enq>(ki, KI, id, inside, v); lvalueCheck(v == id, "int"); break; }
-		case 2: emit<Enq>(ki, KI, id, inside, id + 0); break;
-		case 3: emit<Enq>(ki, KI, id, inside, (short)id); break;
-		case 4: emit<Enq>(ki, KI, id, inside, (long)id); break;
-		case 5: { std::string a = strA(id), b = strB(id); emit<Enq>(ki, KSS, id, inside, a, b); lvalueCheck(a == strA(id) && b == strB(id), "string"); break; }
-		case 6: emit<Enq>(ki, KSS, id, inside, strA(id), strB(id)); break;
-		case 7: { const std::string a = strA(id); const std::string b = strB(id); emit<Enq>(ki, KSS, id, inside, a.c_str(), b); break; }
-		case 8: { std::vector<int> v = vecOf(id); emit<Enq>(ki, KVEC, id, inside, v); lvalueCheck(v == vecOf(id), "vector"); break; }
-		case 9: emit<Enq>(ki, KVEC, id, inside, vecOf(id)); break;
-		case 10: { Big p(id); emit<Enq>(ki, KBIG, id, inside, p); lvalueCheck(p.observe() == id, "Big"); break; }
-		case 11: emit<Enq>(ki, KBIG, id, inside, Big(id)); break;
-		case 12: { Small p(id); int v = id * 3 + 1; emit<Enq>(ki, KPI, id, inside, p, v); lvalueCheck(p.observe() == id && v == id * 3 + 1, "Small,int"); break; }
-		case 13: emit<Enq>(ki, KPI, id, inside, Small(id), (short)(id * 3 + 1)); break;
-		case 14: { IntBox b(id); emit<Enq>(ki, KBOX, id, inside, b); lvalueCheck(b.ok() && b.v == id, "IntBox"); break; }
-		default: emit<Enq>(ki, KBOX, id, inside, IntBox(id)); break;
-		}
 	}
 
 	// ---------------------------------------------------------------- queue processing
 	void releaseSlots(const std::vector<int> & s) { for(size_t i = 0; i < s.size(); ++i) freeSlots.push_back(s[i]); }
 
 	void doProcess(bool one) {
-		if constexpr (C::hasQueue) {
-			std::vector<int> batch;
-			if(one) { if(! pending.empty()) { batch.push_back(pending.front()); pending.pop_front(); } }
-			else { batch.assign(pending.begin(), pending.end()); pending.clear(); }
-			curOp = one ? "processOne" : "process";
-			log(std::string(curOp) + " (" + num((long long)batch.size()) + " event(s))");
-			std::vector<int> slots;
-			unsigned kinds = 0;
-			for(size_t i = 0; i < batch.size(); ++i) { MEv & e = events[(size_t)batch[i]]; e.state = 1; slots.push_back(e.slot); kinds |= 1u << e.kind; pushExpect(batch[i]); lastEv = batch[i]; }
-			count(one ? "op.processOne" : "op.process");
-			if(FoldT::bits(kinds) > 1) count("process.batches_mixing_prototypes");
-			const bool r = one ? obj.processOne() : obj.process();
-			log("  -> " + num(r));
-			releaseSlots(slots);
-			if(! dead && ! expectQ.empty()) fail(std::string(curOp) + ":missed-listener-call", std::string(curOp) + " returned without calling l" + num(expectQ.front().lid) + " for e" + num(events[(size_t)expectQ.front().ev].id));
-			expectQ.clear();
-			if(! dead && r != ! batch.empty()) fail(std::string(curOp) + ":result", std::string(curOp) + " returned " + num(r) + " with " + num((long long)batch.size()) + " event(s) queued");
-			curOp = "idle";
-		}
+		std::vector<int> batch;
+		if(one) { if(! pending.empty()) { batch.push_back(pending.front()); pending.pop_front(); } }
+		else { batch.assign(pending.begin(), pending.end()); pending.clear(); }
+		curOp = one ? "processOne" : "process";
+		log(std::string(curOp) + " (" + num((long long)batch.size()) + " event(s))");
+		std::vector<int> slots;
+		unsigned kinds = 0;
+		for(size_t i = 0; i < batch.size(); ++i) { MEv & e = events[(size_t)batch[i]]; e.state = 1; slots.push_back(e.slot); kinds |= 1u << e.kind; pushExpect(batch[i]); lastEv = batch[i]; }
+		count(one ? "op.processOne" : "op.process");
+		if(bitsOf(kinds) > 1) count("process.batches_mixing_prototypes");
+		const bool r = vProcess(one);
+		log("  -> " + num(r));
+		releaseSlots(slots);
+		if(! dead && ! expectQ.empty()) fail(std::string(curOp) + ":missed-listener-call", std::string(curOp) + " returned without calling l" + num(expectQ.front().lid) + " for e" + num(events[(size_t)expectQ.front().ev].id));
+		expectQ.clear();
+		if(! dead && r != ! batch.empty()) fail(std::string(curOp) + ":result", std::string(curOp) + " returned " + num(r) + " with " + num((long long)batch.size()) + " event(s) queued");
+		curOp = "idle";
 	}
 
-	template <typename Pred>
-	void doProcessIfWith(int pt)
-	{
-		if constexpr (C::hasQueue) {
-			constexpr unsigned mask = FoldT::template maskByCallable<Pred &>();
-			if constexpr (mask != 0) {
-				if(mode.noMulti && FoldT::bits(mask) > 1) return;
-				Pred pred; pred.tag = pt;
-				pifActive = true; pifMask = mask; pifApproved = 0; pifExamined = 0; pifSlots.clear();
-				for(int i = 0; i < (int)NP; ++i) pifCursor[i] = -1;
-				const uint32_t c = rng.below(100);
-				pifPolicy = c < (uint32_t)mode.pDecline ? 0 : c < (uint32_t)mode.pDecline + 20 ? 1 : c < 88 ? 2 : 3;
-				int own = 0, foreign = 0; unsigned foreignKinds = 0;
-				for(size_t i = 0; i < pending.size(); ++i) { const MEv & e = events[(size_t)pending[i]]; if((mask >> e.idx) & 1u) ++own; else { ++foreign; foreignKinds |= 1u << e.kind; } }
-				count("op.processIf");
-				count((std::string("processIf.predicate.") + kPName[pt]).c_str());
-				if(FoldT::bits(mask) > 1) count("processIf.predicate_callable_with_several_prototypes");
-				if(foreign > 0) { count("processIf.calls_with_foreign_events_queued"); count("processIf.foreign_events_present", (uint64_t)foreign); }
-				if(foreign > 0 && (foreignKinds & ((1u << KSS) | (1u << KVEC) | (1u << KBIG) | (1u << KPI)))) count("processIf.calls_with_foreign_nontrivial_events_queued");
-				if(foreign > 0 && own > 0) { count("processIf.calls_with_own_and_foreign_events"); sawPifMixed = true; }
-				curOp = "processIf";
-				log(std::string("processIf ") + kPName[pt] + " callable=0x" + num(mask) + " policy=" + num(pifPolicy) + " queued own=" + num(own) + " foreign=" + num(foreign));
-				const bool r = obj.processIf(pred);
-				pifActive = false;
-				log("  -> " + num(r) + " examined=" + num(pifExamined) + " accepted=" + num(pifApproved));
-				releaseSlots(pifSlots);
-				if(! dead && ! expectQ.empty()) fail("processIf:missed-listener-call", "processIf returned without calling l" + num(expectQ.front().lid) + " for accepted event e" + num(events[(size_t)expectQ.front().ev].id));
-				expectQ.clear();
-				if(! dead && r != (pifApproved > 0)) fail("processIf:result", "processIf returned " + num(r) + " after dispatching " + num(pifApproved) + " event(s)");
-				if(pifApproved == 0 && own > 0) count("processIf.calls_declining_everything");
-				curOp = "idle";
-			}
-		}
+	bool beginPif(int pt, unsigned mask) {
+		if(mode.noMulti && bitsOf(mask) > 1) return false;
+		pifActive = true; pifMask = mask; pifApproved = 0; pifExamined = 0; pifSlots.clear();
+		for(int i = 0; i < (int)NP; ++i) pifCursor[i] = -1;
+		const uint32_t c = rng.below(100);
+		pifPolicy = c < (uint32_t)mode.pDecline ? 0 : c < (uint32_t)mode.pDecline + 20 ? 1 : c < 88 ? 2 : 3;
+		int own = 0, foreign = 0; unsigned foreignKinds = 0;
+		for(size_t i = 0; i < pending.size(); ++i) { const MEv & e = events[(size_t)pending[i]]; if((mask >> e.idx) & 1u) ++own; else { ++foreign; foreignKinds |= 1u << e.kind; } }
+		pifOwn = own;
+		count("op.processIf");
+		count((std::string("processIf.predicate.") + kPName[pt]).c_str());
+		if(bitsOf(mask) > 1) count("processIf.predicate_callable_with_several_prototypes");
+		if(foreign > 0) { count("processIf.calls_with_foreign_events_queued"); count("processIf.foreign_events_present", (uint64_t)foreign); }
+		if(foreign > 0 && (foreignKinds & ((1u << KSS) | (1u << KVEC) | (1u << KBIG) | (1u << KPI)))) count("processIf.calls_with_foreign_nontrivial_events_queued");
+		if(foreign > 0 && own > 0) { count("processIf.calls_with_own_and_foreign_events"); sawPifMixed = true; }
+		curOp = "processIf";
+		log(std::string("processIf ") + kPName[pt] + " callable=" + hex(mask) + " policy=" + num(pifPolicy) + " queued own=" + num(own) + " foreign=" + num(foreign));
+		return true;
 	}
-	void doProcessIf() {
-		const int pt = (int)rng.below(NPREDS);
-		switch(pt) {
-		case 0: doProcessIfWith<typename F::PV>(pt); break;
-		case 1: doProcessIfWith<typename F::PI_>(pt); break;
-		case 2: doProcessIfWith<typename F::PL_>(pt); break;
-		case 3: doProcessIfWith<typename F::PSS>(pt); break;
-		case 4: doProcessIfWith<typename F::PVEC>(pt); break;
-		case 5: doProcessIfWith<typename F::PBIG>(pt); break;
-		case 6: doProcessIfWith<typename F::PPI>(pt); break;
-		case 7: doProcessIfWith<typename F::PBOX>(pt); break;
-		case 8: doProcessIfWith<typename F::POvISS>(pt); break;
-		case 9: doProcessIfWith<typename F::POvVVecBig>(pt); break;
-		default: doProcessIfWith<typename F::PGen>(pt); break;
-		}
+	void endPif(bool r) {
+		pifActive = false;
+		log("  -> " + num(r) + " examined=" + num(pifExamined) + " accepted=" + num(pifApproved));
+		releaseSlots(pifSlots);
+		if(! dead && ! expectQ.empty()) fail("processIf:missed-listener-call", "processIf returned without calling l" + num(expectQ.front().lid) + " for accepted event e" + num(events[(size_t)expectQ.front().ev].id));
+		expectQ.clear();
+		if(! dead && r != (pifApproved > 0)) fail("processIf:result", "processIf returned " + num(r) + " after dispatching " + num(pifApproved) + " event(s)");
+		if(pifApproved == 0 && pifOwn > 0) count("processIf.calls_declining_everything");
+		curOp = "idle";
 	}
 
 	void doClear() {
-		if constexpr (C::hasQueue) {
-			log("clearEvents (" + num((long long)pending.size()) + " event(s))");
-			std::vector<int> slots;
-			for(size_t i = 0; i < pending.size(); ++i) { MEv & e = events[(size_t)pending[i]]; e.state = 2; slots.push_back(e.slot); count("events.cleared"); }
-			pending.clear();
-			obj.clearEvents();
-			releaseSlots(slots);
-			count("op.clearEvents");
-			if(ledger().liveCount(K_PAYLOAD) != 0 && ! dead) fail("clearEvents:payload-alive", num(ledger().liveCount(K_PAYLOAD)) + " payload instance(s) alive after clearEvents");
-		}
+		log("clearEvents (" + num((long long)pending.size()) + " event(s))");
+		std::vector<int> slots;
+		for(size_t i = 0; i < pending.size(); ++i) { MEv & e = events[(size_t)pending[i]]; e.state = 2; slots.push_back(e.slot); count("events.cleared"); }
+		pending.clear();
+		vClear();
+		releaseSlots(slots);
+		count("op.clearEvents");
+		if(ledger().liveCount(K_PAYLOAD) != 0 && ! dead) fail("clearEvents:payload-alive", num(ledger().liveCount(K_PAYLOAD)) + " payload instance(s) alive after clearEvents");
 	}
 
 	void doEmptyQueue() {
-		if constexpr (C::hasQueue) {
-			const bool got = obj.emptyQueue();
-			log("emptyQueue -> " + num(got));
-			count("op.emptyQueue");
-			if(got != pending.empty()) fail("emptyQueue:result", "emptyQueue returned " + num(got) + " with " + num((long long)pending.size()) + " event(s) queued");
-		}
+		const bool got = vEmptyQueue();
+		log("emptyQueue -> " + num(got));
+		count("op.emptyQueue");
+		if(got != pending.empty()) fail("emptyQueue:result", "emptyQueue returned " + num(got) + " with " + num((long long)pending.size()) + " event(s) queued");
 	}
 
 	// ---------------------------------------------------------------- quiescent checks
@@ -885,12 +748,12 @@ struct World : HSink
 		if(dead) return;
 		if(! expectQ.empty()) { fail("harness:expectations-left", "expectation queue not empty at top level"); return; }
 		long wantLive = 0;
-		if constexpr (C::hasQueue) {
-			const size_t qs = Access::queueSize(obj);
+		if(hasQueue) {
+			const size_t qs = vQueueSize();
 			if(qs != pending.size()) { fail("queue:length-differs-from-model", "queue holds " + num((long long)qs) + " event(s), model says " + num((long long)pending.size())); return; }
-			const std::string err = Access::checkSlots(obj);
+			const std::string err = vCheckSlots();
 			if(! err.empty()) { fail("queue:" + err, err); return; }
-			if(slotModelOk && Access::freeSize(obj) != freeSlots.size()) { slotModelOk = false; count("slot.model_desync"); }
+			if(slotModelOk && vFreeSize() != freeSlots.size()) { slotModelOk = false; count("slot.model_desync"); }
 			countMax("max_queue_length", pending.size());
 			for(size_t i = 0; i < pending.size(); ++i) { const MEv & e = events[(size_t)pending[i]]; if(e.kind == KBIG || e.kind == KPI) ++wantLive; }
 		}
@@ -910,62 +773,280 @@ struct World : HSink
 	}
 
 	// ---------------------------------------------------------------- generation
+	void listenerOp(int ki) {
+		const uint32_t c = rng.below(100);
+		if(c < 62 && lis.size() < 60) vAdd(ki, (int)rng.below(NFTYPES));
+		else if(c < 92) doRemove(ki);
+		else doEmpty(ki);
+	}
 	void step() {
 		if(dead) return;
 		nestedBudget = 4;
-		const int ki = (int)rng.below(NK);
-		if constexpr (C::hasQueue) {
+		const int ki = (int)rng.below((uint32_t)NK);
+		if(hasQueue) {
 			const int wPif = mode.noPif ? 0 : mode.wPif;
 			const int total = mode.wEnq + mode.wProc1 + mode.wProc + wPif + mode.wClear + mode.wEmptyQ + mode.wLis + mode.wFire + mode.wEnum;
 			int c = (int)rng.below((uint32_t)total);
-			if((c -= mode.wEnq) < 0) { const int n = rng.chance(1, 4) ? 1 + (int)rng.below(6) : 1; for(int i = 0; i < n && ! dead; ++i) genEvent<true>((int)rng.below(NK), false); }
+			if((c -= mode.wEnq) < 0) { const int n = rng.chance(1, 4) ? 1 + (int)rng.below(6) : 1; for(int i = 0; i < n && ! dead; ++i) vGen(true, (int)rng.below((uint32_t)NK), false); }
 			else if((c -= mode.wProc1) < 0) doProcess(true);
 			else if((c -= mode.wProc) < 0) doProcess(false);
-			else if((c -= wPif) < 0) doProcessIf();
+			else if((c -= wPif) < 0) vProcessIf((int)rng.below(NPREDS));
 			else if((c -= mode.wClear) < 0) doClear();
 			else if((c -= mode.wEmptyQ) < 0) doEmptyQueue();
 			else if((c -= mode.wLis) < 0) listenerOp(ki);
-			else if((c -= mode.wFire) < 0) genEvent<false>(ki, false);
-			else doEnum(ki);
+			else if((c -= mode.wFire) < 0) vGen(false, ki, false);
+			else vEnum(ki, (int)rng.below(7));
 		}
 		else {
 			const uint32_t c = rng.below(100);
 			if(c < 42) listenerOp(ki);
-			else if(c < 88) genEvent<false>(ki, false);
-			else doEnum(ki);
+			else if(c < 88) vGen(false, ki, false);
+			else vEnum(ki, (int)rng.below(7));
 		}
-	}
-	void listenerOp(int ki) {
-		const uint32_t c = rng.below(100);
-		if(c < 62 && lis.size() < 60) addListener(ki, (int)rng.below(NFTYPES));
-		else if(c < 92) doRemove(ki);
-		else doEmpty(ki);
 	}
 
 	void run(int nops) {
 		gSink = this;
 		// a few listeners first so that most events are observed when consumed
 		const int pre = (int)rng.below(12);
-		for(int i = 0; i < pre && ! dead; ++i) addListener((int)rng.below(NK), (int)rng.below(NFTYPES));
+		for(int i = 0; i < pre && ! dead; ++i) vAdd((int)rng.below((uint32_t)NK), (int)rng.below(NFTYPES));
 		for(int i = 0; i < nops && ! dead; ++i) { step(); quiescent(); }
 		if(! dead) {
 			// final: one exact-prototype listener per (key, prototype) so that every remaining event is observed, then drain
 			const uint32_t how = rng.below(10);
-			if(how < 7 || ! C::hasQueue) {
+			if(how < 7 || ! hasQueue) {
 				static const int exact[] = { 0, 1, 2, 4, 6, 7, 9 };
-				for(int ki = 0; ki < (int)NK && ! dead; ++ki) for(int k = 0; k < 7 && ! dead; ++k) addListener(ki, exact[k]);
-				if constexpr (C::hasQueue) {
+				for(int ki = 0; ki < NK && ! dead; ++ki) for(int k = 0; k < 7 && ! dead; ++k) vAdd(ki, exact[k]);
+				if(hasQueue) {
 					count("events.left_for_final_drain", pending.size());
 					if(! dead) doProcess(false);
 				}
-				else for(int ki = 0; ki < (int)NK && ! dead; ++ki) for(int k = 0; k < 3 && ! dead; ++k) genEvent<false>(ki, false);
+				else for(int ki = 0; ki < NK && ! dead; ++ki) for(int k = 0; k < 3 && ! dead; ++k) vGen(false, ki, false);
 			}
 			else if(how < 8) doClear();
 			else count("events.left_at_destruction", pending.size());
 			quiescent();
 		}
 	}
-	~World() { gSink = nullptr; }
+	~WorldBase() { gSink = nullptr; }
+};
+
+// ------------------------------------------------------------------ the library side: every call site whose types matter
+template <typename C>
+struct World : WorldBase
+{
+	typedef typename C::Obj Obj;
+	typedef typename C::Handle Handle;
+	typedef typename C::Key Key;
+	typedef typename C::F F;
+	typedef typename C::P P;
+	typedef Fold<typename C::PL> FoldT;
+	static_assert((int)FoldT::N == (int)WorldBase::NP, "prototype count");
+
+	Obj obj;
+	Key keys[3];
+
+	World(const Mode & m, Rng & r) : WorldBase(C::cont, C::include, m, r) {
+		for(int i = 0; i < 3; ++i) { keys[i] = KeyGen<Key>::make(i); keyFps[i] = C::include ? keyFp(keys[i]) : -1; }
+	}
+
+	static Handle toH(const GH & g) { Handle h = Handle(); h.index = g.index; h.homoHandle = g.wp; return h; }
+	static GH toG(const Handle & h) { return GH(h.index, h.homoHandle); }
+
+	// ---- listeners
+	template <typename Fn, typename Sig> static void tryTarget(const std::function<Sig> & f, int & out) {
+		const Fn * t = f.template target<Fn>();
+		if(t) out = t->lid;
+	}
+	template <typename Sig> static int lidOf(const std::function<Sig> & f) {
+		int r = -1;
+		tryTarget<typename F::FV>(f, r); tryTarget<typename F::FI>(f, r); tryTarget<typename F::FSS>(f, r); tryTarget<typename F::FSSv>(f, r);
+		tryTarget<typename F::FVEC>(f, r); tryTarget<typename F::FVECv>(f, r); tryTarget<typename F::FBIG>(f, r); tryTarget<typename F::FPI>(f, r);
+		tryTarget<typename F::FPIr>(f, r); tryTarget<typename F::FBOX>(f, r); tryTarget<typename F::FL>(f, r); tryTarget<typename F::FOvVI>(f, r);
+		tryTarget<typename F::FOvSSVEC>(f, r); tryTarget<typename F::FOvBoxBig>(f, r); tryTarget<typename F::FGen>(f, r);
+		return r;
+	}
+
+	// Hows: which of append(1) / prepend(2) / insert(4) are compiled for this functor type
+	template <typename Fn, unsigned Hows>
+	void doAdd(int ki, int ft)
+	{
+		constexpr unsigned mask = FoldT::template maskByCallable<Fn>();
+		if constexpr (mask != 0) {
+			const AddPlan p = beginAdd(ki, ft, mask, Hows);
+			Fn fn; fn.lid = p.lid;
+			Handle h = Handle();
+			if constexpr (C::cont == CK_CL) {
+				if constexpr ((Hows & 1u) != 0) { if(p.how == 0) h = obj.append(fn); }
+				if constexpr ((Hows & 2u) != 0) { if(p.how == 1) h = obj.prepend(fn); }
+				if constexpr ((Hows & 4u) != 0) { if(p.how == 2) h = obj.insert(fn, toH(p.hb)); }
+			}
+			else {
+				if constexpr ((Hows & 1u) != 0) { if(p.how == 0) h = obj.appendListener(keys[ki], fn); }
+				if constexpr ((Hows & 2u) != 0) { if(p.how == 1) h = obj.prependListener(keys[ki], fn); }
+				if constexpr ((Hows & 4u) != 0) { if(p.how == 2) h = obj.insertListener(keys[ki], fn, toH(p.hb)); }
+			}
+			endAdd(p, toG(h));
+		}
+	}
+	void vAdd(int ki, int ft) override {
+		switch(ft) {
+		case 0: doAdd<typename F::FV, 7>(ki, ft); break;
+		case 1: doAdd<typename F::FI, 5>(ki, ft); break;
+		case 2: doAdd<typename F::FSS, 6>(ki, ft); break;
+		case 3: doAdd<typename F::FSSv, 1>(ki, ft); break;
+		case 4: doAdd<typename F::FVEC, 4>(ki, ft); break;
+		case 5: doAdd<typename F::FVECv, 2>(ki, ft); break;
+		case 6: doAdd<typename F::FBIG, 2>(ki, ft); break;
+		case 7: doAdd<typename F::FPI, 1>(ki, ft); break;
+		case 8: doAdd<typename F::FPIr, 4>(ki, ft); break;
+		case 9: doAdd<typename F::FBOX, 2>(ki, ft); break;
+		case 10: doAdd<typename F::FL, 1>(ki, ft); break;
+		case 11: doAdd<typename F::FOvVI, 4>(ki, ft); break;
+		case 12: doAdd<typename F::FOvSSVEC, 1>(ki, ft); break;
+		case 13: doAdd<typename F::FOvBoxBig, 2>(ki, ft); break;
+		default: doAdd<typename F::FGen, 5>(ki, ft); break;
+		}
+	}
+	bool vRemove(int ki, const GH & g) override {
+		if constexpr (C::cont == CK_CL) return obj.remove(toH(g)); else return obj.removeListener(keys[ki], toH(g));
+	}
+	bool vEmpty(int ki, bool & asBool) override {
+		if constexpr (C::cont == CK_CL) { const bool e = obj.empty(); asBool = (bool)obj; return e; }
+		else { const bool e = ! obj.hasAnyListener(keys[ki]); asBool = ! e; return e; }
+	}
+
+	// ---- enumeration
+	struct Vis1 { World * w; template <typename CB> void operator() (const CB & cb) const { w->onVisit(World::lidOf(cb), false, GH()); } };
+	struct Vis2 { World * w; template <typename CB> void operator() (const Handle & h, const CB & cb) const { w->onVisit(World::lidOf(cb), true, World::toG(h)); } };
+	struct VisIf1 { World * w; template <typename CB> bool operator() (const CB & cb) const { return w->onVisit(World::lidOf(cb), false, GH()); } };
+	struct VisIf2 { World * w; template <typename CB> bool operator() (const Handle & h, const CB & cb) const { return w->onVisit(World::lidOf(cb), true, World::toG(h)); } };
+
+	// Odd: which two of the four forms are compiled for this prototype (keeps the number of instantiations down)
+	template <typename Proto, bool Odd>
+	void doEnumProto(int ki, const char * pname)
+	{
+		constexpr unsigned mask = FoldT::template maskByCallable<Proto &>();
+		// only prototypes that select exactly one listed prototype: which list an ambiguous one enumerates is not part of the statement
+		if constexpr (FoldT::bits(mask) == 1) {
+			const bool withIf = beginEnum(ki, FoldT::firstOf(mask), pname, Odd);
+			bool r = true;
+			if constexpr (C::cont == CK_CL) {
+				if constexpr (Odd) { if(withIf) { VisIf1 v; v.w = this; r = obj.template forEachIf<Proto>(v); } else { Vis2 v; v.w = this; obj.template forEach<Proto>(v); } }
+				else { if(withIf) { VisIf2 v; v.w = this; r = obj.template forEachIf<Proto>(v); } else { Vis1 v; v.w = this; obj.template forEach<Proto>(v); } }
+			}
+			else {
+				if constexpr (Odd) { if(withIf) { VisIf1 v; v.w = this; r = obj.template forEachIf<Proto>(keys[ki], v); } else { Vis2 v; v.w = this; obj.template forEach<Proto>(keys[ki], v); } }
+				else { if(withIf) { VisIf2 v; v.w = this; r = obj.template forEachIf<Proto>(keys[ki], v); } else { Vis1 v; v.w = this; obj.template forEach<Proto>(keys[ki], v); } }
+			}
+			endEnum(r);
+		}
+	}
+	void vEnum(int ki, int proto) override {
+		switch(proto) {
+		case 0: doEnumProto<typename P::V, false>(ki, "V"); break;
+		case 1: doEnumProto<typename P::I, true>(ki, "I"); break;
+		case 2: doEnumProto<typename P::SS, false>(ki, "SS"); break;
+		case 3: doEnumProto<typename P::VEC, true>(ki, "VEC"); break;
+		case 4: doEnumProto<typename P::BIG, false>(ki, "BIG"); break;
+		case 5: doEnumProto<typename P::PI, true>(ki, "PI"); break;
+		default: doEnumProto<typename P::BOX, false>(ki, "BOX"); break;
+		}
+	}
+
+	// ---- events.  KeyTemp: pass the event key as a temporary (fixed per call site to keep the number of instantiations down)
+	template <bool Enq, bool KeyTemp, typename K, typename ...A>
+	void emitK(int ki, int kind, int id, bool inside, K && key, A && ...a)
+	{
+		constexpr unsigned mask = C::include ? FoldT::template maskByArgs<K, A...>() : FoldT::template maskByArgs<A...>();
+		static_assert(mask != 0, "no prototype accepts these arguments");
+		const int ev = beginEvent(Enq, ki, kind, id, inside, mask, KeyTemp);
+		if constexpr (Enq) {
+			if constexpr (C::hasQueue) obj.enqueue(std::forward<K>(key), std::forward<A>(a)...);
+		}
+		else {
+			if constexpr (C::cont == CK_CL) obj(std::forward<A>(a)...);
+			else obj.dispatch(std::forward<K>(key), std::forward<A>(a)...);
+			endDirect(ev);
+		}
+	}
+	template <bool Enq, bool KeyTemp, typename ...A>
+	void emit(int ki, int kind, int id, bool inside, A && ...a)
+	{
+		if constexpr (KeyTemp && C::hasKey) emitK<Enq, true>(ki, kind, id, inside, Key(keys[ki]), std::forward<A>(a)...);
+		else { const Key & k = keys[ki]; emitK<Enq, false>(ki, kind, id, inside, k, std::forward<A>(a)...); }
+	}
+
+	// one generated event: Enq ? enqueue : direct invoke / dispatch, with one of 16 argument shapes
+	// (the direct form on a queue object uses 8 of them: HeterEventDispatcher configurations cover the rest)
+	template <bool Enq>
+	void genEvent(int ki, bool inside)
+	{
+		if(events.size() >= 30000) return;
+		const int id = (int)events.size();
+		constexpr bool all = Enq || ! C::hasQueue;
+		uint32_t s = rng.below(16);
+		if(! all) s |= 1u;
+		switch(s) {
+		case 0: if constexpr (all) emit<Enq, true>(ki, KV, id, inside); break;
+		case 1: { int v = id; emit<Enq, false>(ki, KI, id, inside, v); lvalueCheck(v == id, "int"); break; }
+		case 2: if constexpr (all) emit<Enq, true>(ki, KI, id, inside, id + 0); break;
+		case 3: emit<Enq, true>(ki, KI, id, inside, (short)id); break;
+		case 4: if constexpr (all) emit<Enq, false>(ki, KI, id, inside, (long)id); break;
+		case 5: { std::string a = strA(id), b = strB(id); emit<Enq, true>(ki, KSS, id, inside, a, b); lvalueCheck(a == strA(id) && b == strB(id), "string"); break; }
+		case 6: if constexpr (all) emit<Enq, false>(ki, KSS, id, inside, strA(id), strB(id)); break;
+		case 7: { const std::string a = strA(id); const std::string b = strB(id); emit<Enq, true>(ki, KSS, id, inside, a.c_str(), b); break; }
+		case 8: if constexpr (all) { std::vector<int> v = vecOf(id); emit<Enq, true>(ki, KVEC, id, inside, v); lvalueCheck(v == vecOf(id), "vector"); } break;
+		case 9: emit<Enq, false>(ki, KVEC, id, inside, vecOf(id)); break;
+		case 10: if constexpr (all) { Big p(id); emit<Enq, false>(ki, KBIG, id, inside, p); lvalueCheck(p.observe() == id, "Big"); } break;
+		case 11: emit<Enq, true>(ki, KBIG, id, inside, Big(id)); break;
+		case 12: if constexpr (all) { Small p(id); int v = id * 3 + 1; emit<Enq, true>(ki, KPI, id, inside, p, v); lvalueCheck(p.observe() == id && v == id * 3 + 1, "Small,int"); } break;
+		case 13: emit<Enq, false>(ki, KPI, id, inside, Small(id), (short)(id * 3 + 1)); break;
+		case 14: if constexpr (all) { IntBox b(id); emit<Enq, false>(ki, KBOX, id, inside, b); lvalueCheck(b.ok() && b.v == id, "IntBox"); } break;
+		default: emit<Enq, true>(ki, KBOX, id, inside, IntBox(id)); break;
+		}
+	}
+	void vGen(bool enq, int ki, bool inside) override {
+		if(enq) { if constexpr (C::hasQueue) genEvent<true>(ki, inside); }
+		else genEvent<false>(ki, inside);
+	}
+
+	// ---- queue
+	bool vProcess(bool one) override { if constexpr (C::hasQueue) return one ? obj.processOne() : obj.process(); else return false; }
+	void vClear() override { if constexpr (C::hasQueue) obj.clearEvents(); }
+	bool vEmptyQueue() override { if constexpr (C::hasQueue) return obj.emptyQueue(); else return true; }
+	size_t vQueueSize() override { if constexpr (C::hasQueue) return Access::queueSize(obj); else return 0; }
+	size_t vFreeSize() override { if constexpr (C::hasQueue) return Access::freeSize(obj); else return 0; }
+	std::string vCheckSlots() override { if constexpr (C::hasQueue) return Access::checkSlots(obj); else return std::string(); }
+
+	template <typename Pred>
+	void doProcessIfWith(int pt)
+	{
+		if constexpr (C::hasQueue) {
+			constexpr unsigned mask = FoldT::template maskByCallable<Pred &>();
+			if constexpr (mask != 0) {
+				if(! beginPif(pt, mask)) return;
+				Pred pred; pred.tag = pt;
+				const bool r = obj.processIf(pred);
+				endPif(r);
+			}
+		}
+	}
+	void vProcessIf(int pt) override {
+		switch(pt) {
+		case 0: doProcessIfWith<typename F::PV>(pt); break;
+		case 1: doProcessIfWith<typename F::PI_>(pt); break;
+		case 2: doProcessIfWith<typename F::PL_>(pt); break;
+		case 3: doProcessIfWith<typename F::PSS>(pt); break;
+		case 4: doProcessIfWith<typename F::PVEC>(pt); break;
+		case 5: doProcessIfWith<typename F::PBIG>(pt); break;
+		case 6: doProcessIfWith<typename F::PPI>(pt); break;
+		case 7: doProcessIfWith<typename F::PBOX>(pt); break;
+		case 8: doProcessIfWith<typename F::POvISS>(pt); break;
+		case 9: doProcessIfWith<typename F::POvVVecBig>(pt); break;
+		default: doProcessIfWith<typename F::PGen>(pt); break;
+		}
+	}
 };
 
 // ------------------------------------------------------------------ case runner
@@ -984,9 +1065,8 @@ static void runCfg(const Mode & mode, Rng & rng, uint64_t caseNo, int cfgIndex)
 		oplog("config " + num(cfgIndex) + ": " + C::name() + " ops=" + num(nops));
 		w.run(nops);
 		h = w.trace.h;
-		typedef Fold<typename C::PL> FoldT;
-		if(C::hasQueue) nontrivial = FoldT::bits(w.kindsEnqueued) >= 3 && w.sawPifMixed && w.sawSlotChange && w.sawListenerCall;
-		else nontrivial = FoldT::bits(w.protoBound) >= 3 && w.sawMultiBind && w.sawInvokeHit && w.sawRemove;
+		if(C::hasQueue) nontrivial = bitsOf(w.protoEnqueued) >= 3 && w.sawPifMixed && w.sawSlotChange && w.sawListenerCall;
+		else nontrivial = bitsOf(w.protoBound) >= 3 && w.sawMultiBind && w.sawInvokeHit && w.sawRemove;
 		count("events_created", w.events.size());
 		count("listeners_created", w.lis.size());
 	}
